@@ -150,6 +150,8 @@ class XorEncodedFile(io.RawIOBase):
             nonce = self.fh.read(4)
         except OSError:
             nonce = b"\x00\x00\x00\x00"
+        # a short read at (or beyond) the end of the file must not move the position
+        self.fh.seek(pos)
         if pos < self.nonce_offset + 12:
             # Exclude "encoded filesize" as nonce:
             # | nonce | encoded filesize | encoded MZ | encoded .. |
@@ -168,7 +170,7 @@ class XorEncodedFile(io.RawIOBase):
     def read(self, n=-1):
         data = b""
         nonce = self.read_nonce()
-        while True:
+        while n != 0:
             chunk = self.fh.read(4)
             if not chunk:
                 break
@@ -177,8 +179,11 @@ class XorEncodedFile(io.RawIOBase):
             nonce = chunk
             if n > 0 and len(data) >= n:
                 break
-        if n == -1:
+        if n < 0:
             n = None
+        elif len(data) > n:
+            # data is decoded in chunks of 4 bytes, rewind the bytes that were read beyond `n`
+            self.fh.seek(n - len(data), io.SEEK_CUR)
         return data[:n]
 
 
